@@ -49,7 +49,7 @@ extern int mpt_stream_poll(MPT_STRUCT(stream) *srm, int what, int timeout)
 	else if (timeout < 0 && what == POLLOUT) {
 		fd[0].fd = -1;
 		fd[0].revents = 0;
-		fd[1].fd = _mpt_stream_fread(&srm->_info);
+		fd[1].fd = _mpt_stream_fwrite(&srm->_info);
 		fd[1].revents = what;
 	}
 	/* wait for inputs */
@@ -73,7 +73,7 @@ extern int mpt_stream_poll(MPT_STRUCT(stream) *srm, int what, int timeout)
 		if ((keep = poll(fd[0].fd < 0 ? fd+1 : fd, shared || fd[0].fd < 0 ? 1 : 2, timeout)) < 0) {
 			return keep;
 		}
-		if (shared) fd[0].revents |= fd[1].revents;
+		if (shared) fd[1].revents = fd[0].revents;
 	}
 	keep = -3;
 	
@@ -117,7 +117,7 @@ extern int mpt_stream_poll(MPT_STRUCT(stream) *srm, int what, int timeout)
 	}
 	if (fd[1].fd >= 0) {
 		/* avoid removal if input not queried */
-		if (!(fd[0].revents & POLLOUT)) {
+		if (!(fd[1].revents & POLLOUT)) {
 			if (srm->_wd._state.done && keep < 0) {
 				keep = 0;
 			}
